@@ -59,7 +59,12 @@ def _mentions_manifest(node):
 def manifest_sites(ctx, tool, cfg):
     prog = ctx.prog
     R = "R-C10-sites"
-    loops = cc.find_loop_over(tool, lambda n: astq.is_name(n.iter, "loader"))
+    def _over_loader(n):
+        it = n.iter
+        if isinstance(it, ast.Call) and astq.is_name(it.func, "enumerate") and it.args:
+            it = it.args[0]  # for k, (...) in enumerate(loader[, start]): the same traversal, counted
+        return astq.is_name(it, "loader")
+    loops = cc.find_loop_over(tool, _over_loader)
     ctx.need(len(loops) == 1, R, "writer loop over the DataLoader not found")
     loop = loops[0]
     saves = [c for c in astq.calls_in(loop) if prog.qualify(tool.module, c.func, tool) == "torch.save"]
